@@ -86,6 +86,8 @@ class Robust(Part):
         pyrandom.seed(case["cseed"])
         n, um, kind = case["n"], case["userm"], case["kind"]
         tols = [rng.choice(TOLS) for _ in range(n)]
+        if kind == "worstcase" and n >= 2 and rng.random() < 0.25:
+            tols[rng.randrange(n)] = 0.0        # a declared tolerance of exactly 0: that parameter's two neighbours coincide with the design
         coef = [rng.randint(1, 9) for _ in range(n)]
         calls = {}
         lock_vectors = {}
@@ -106,7 +108,7 @@ class Robust(Part):
         bounds = [[-20.0, 20.0] for _ in range(n)]
         pinned = case.get("pinned")
         if pinned is not None:
-            pin = rng.randint(-18, 18) * 0.5 if kind == "gradient" else rng.randint(-int(18 / tols[pinned]), int(18 / tols[pinned])) * tols[pinned]
+            pin = rng.randint(-18, 18) * 0.5 if kind == "gradient" else (rng.randint(-int(18 / tols[pinned]), int(18 / tols[pinned])) * tols[pinned] if tols[pinned] else rng.randint(-36, 36) * 0.5)
             bounds[pinned] = [pin, pin]
         problem = absx.make_problem(n, bounds=bounds, costs=costs, evaluate=f)
         for p, t in zip(problem.parameters, tols):
@@ -115,19 +117,29 @@ class Robust(Part):
         seen = []                       # all designs handed to evaluate so far (strong refs)
         trace = []
 
+        def displacement(x, ch, run=False):
+            disp = []
+            zero_slots = [(i + 1, sg) for i, t in enumerate(tols) if kind == "worstcase" and t == 0.0 for sg in (-1, 1)]
+            step = tols if kind == "worstcase" else [1e-4] * n
+            for c in ch:
+                d = [float(a) - b for a, b in zip(c.vector, x)]
+                nz = [i for i, v in enumerate(d) if v != 0.0]
+                if not nz and zero_slots:
+                    ax, sg = zero_slots.pop(0)          # a neighbour that coincides with the design: one of the zero-tolerance slots
+                    disp.append({"axis": ax, "sign": sg, "ok": True})
+                    continue
+                ok = len(nz) == 1 and abs(abs(d[nz[0]]) - step[nz[0]]) <= (1e-9 if run else 1e-12)
+                disp.append({"axis": (nz[0] + 1) if nz else 0, "sign": (1 if d[nz[0]] > 0 else -1) if nz else 0, "ok": bool(ok)})
+            return disp
+
         def snapshot(new, exc=""):
             designs = []
             for k, ind in enumerate(seen):
                 x = [float(v) for v in ind.vector]
                 ch = list(ind.children)
-                disp = []
-                for c in ch:
-                    d = [float(a) - b for a, b in zip(c.vector, x)]
-                    nz = [i for i, v in enumerate(d) if v != 0.0]
-                    step = tols if kind == "worstcase" else [1e-4] * n
-                    ok = len(nz) == 1 and abs(abs(d[nz[0]]) - step[nz[0]]) <= 1e-12
-                    disp.append({"axis": (nz[0] + 1) if nz else 0, "sign": (1 if d[nz[0]] > 0 else -1) if nz else 0, "ok": bool(ok)})
-                ncalls = calls.get(tuple(x), 0) + sum(calls.get(tuple(float(v) for v in c.vector), 0) for c in ch)
+                disp = displacement(x, ch)
+                vecs = {tuple(x)} | {tuple(float(v) for v in c.vector) for c in ch}      # neighbours that coincide with the design share its calls
+                ncalls = sum(calls.get(v, 0) for v in vecs)
                 # designs that repeat the coordinates of another design share their vectors: split the calls evenly
                 mult = sum(1 for other in seen if [float(v) for v in other.vector] == x)
                 ncalls = ncalls // mult if ncalls % mult == 0 else -1
@@ -157,7 +169,7 @@ class Robust(Part):
             if kind == "gradient":
                 v = [rng.randint(-18, 18) * 0.5 for _ in range(n)] if not intvec[0] or rng.random() < 0.3 else [float(rng.randint(-9, 9)) for _ in range(n)]
             else:
-                v = [rng.randint(-int(18 / t), int(18 / t)) * t for t in tols]
+                v = [(rng.randint(-int(18 / t), int(18 / t)) * t) if t else rng.randint(-36, 36) * 0.5 for t in tols]
             if pinned is not None:
                 v[pinned] = pin
             if intvec[0] and all(float(c) == int(c) for c in v):
@@ -238,12 +250,7 @@ class Robust(Part):
             for k, ind in enumerate(seen):
                 ch = list(ind.children)
                 x = [float(v) for v in ind.vector]
-                disp = []
-                for c in ch:
-                    d = [float(a) - b for a, b in zip(c.vector, x)]
-                    nz = [i for i, v in enumerate(d) if v != 0.0]
-                    ok = len(nz) == 1 and abs(abs(d[nz[0]]) - tols[nz[0]]) <= 1e-9
-                    disp.append({"axis": (nz[0] + 1) if nz else 0, "sign": (1 if d[nz[0]] > 0 else -1) if nz else 0, "ok": bool(ok)})
+                disp = displacement(x, ch, run=True)
                 rec = {"k": k + 1, "new": any(ind is i for i in new), "costlen": len(ind.costs), "signedlen": len(ind.costs_signed),
                        "calls": 1 + 2 * n, "disp": disp, "f": fint(x, 0), "fc": [fint(c.vector, 0) for c in ch],
                        "childcosts": [int(round(c.costs[0])) if c.costs else -99999 for c in ch],
